@@ -36,6 +36,11 @@ import (
 // failed handshake to the peer.
 const initErrorWriteTimeout = time.Second
 
+// maxInitErrorMessageSize is the longest message that fits in an error frame:
+// the payload also holds the code (1 byte), the tracing (25 bytes) and the
+// length of the message (2 bytes).
+const maxInitErrorMessageSize = MaxFramePayloadSize - 1 - 25 - 2
+
 func (ch *Channel) outboundHandshake(ctx context.Context, c net.Conn, outboundHP string, events connectionEvents) (_ *Connection, err error) {
 	defer setInitDeadline(ctx, c)()
 	defer func() {
@@ -151,10 +156,16 @@ func (ch *Channel) initError(c net.Conn, connDir connectionDirection, id uint32,
 	// silent peer) the error frame below could never be written. Give the
 	// error frame its own short write deadline.
 	c.SetWriteDeadline(time.Now().Add(initErrorWriteTimeout))
+	// The error text may quote a message supplied by the peer; cut it so that
+	// the error frame always fits in a single frame.
+	message := err.Error()
+	if len(message) > maxInitErrorMessageSize {
+		message = message[:maxInitErrorMessageSize]
+	}
 	ch.writeMessage(c, &errorMessage{
 		id:      id,
 		errCode: GetSystemErrorCode(err),
-		message: err.Error(),
+		message: message,
 	})
 	c.Close()
 	return err
